@@ -275,7 +275,9 @@ func projectColumns(selectList sql.SelectList, qfields storage.Fields, rows []*s
 				field = &storage.Field{Column: "count(*)"}
 			}
 		case sql.ColumnReference:
-			field = qfields[lookup[elem]]
+			// copy, so that an alias does not rename the source field
+			f := *qfields[lookup[elem]]
+			field = &f
 		default:
 			field = &storage.Field{Column: "?"}
 		}
